@@ -200,6 +200,7 @@ class Builder(object):
         from clastic import Application, Route, SubApplication
         insts = {}
         app = None
+        early_sub = None
         for k in range(len(levels) - 1, -1, -1):
             lv = levels[k]
             if prebuilt is not None and k == len(levels) - 1:
@@ -213,12 +214,22 @@ class Builder(object):
             sub_entry = None
             if app is not None:
                 sub = levels[k + 1]
-                sub_entry = SubApplication(sub['prefix'], app, rebind_render=sub['rebind'], inherit_slashes=sub['inherit'])
+                sub_entry = early_sub or SubApplication(sub['prefix'], app, rebind_render=sub['rebind'],
+                                                        inherit_slashes=sub['inherit'])
                 if style != 'add0':
                     routes.append(sub_entry)
             for r in lv['routes']:
                 routes.append(Route(r['pattern'], self.EPS[r['endpoint']], r.get('render'), methods=r.get('methods')))
             kw = {'error_handler': self.handler(k, k == 0 and lv.get('debug'), 'r' in lv['res'])}
+            if style == 'early' and k > 0:
+                # the embedding wrapper is created while the application is still empty; its routes come afterwards
+                app = Application([], resources=lv['res'], middlewares=mws, slash_mode=lv['slash'],
+                                  render_factory=self.factory(lv['factory']) if lv['factory'] else None, **kw)
+                early_sub = SubApplication(lv['prefix'], app, rebind_render=lv['rebind'], inherit_slashes=lv['inherit'])
+                for r in routes:
+                    app.add(r)
+                continue
+            early_sub = None
             app = Application(routes, resources=lv['res'], middlewares=mws, slash_mode=lv['slash'],
                               render_factory=self.factory(lv['factory']) if lv['factory'] else None, **kw)
             if sub_entry is not None and style == 'add0':
@@ -297,6 +308,8 @@ def check_tree(acc, b, levels, layer, style='constructor', prebuilt=None):
                     feat = []
                     if style == 'add0':
                         feat.append('added-at-index')
+                    if style == 'early':
+                        feat.append('wrapper-before-routes')
                     if prebuilt is not None:
                         feat.append('embedded-again')
                     if any(not lv['inherit'] for lv in levels[1:]):
@@ -358,7 +371,7 @@ def shard(tier, i, n, seed):
             if deadline_passed():
                 acc.extra['cap_hit'] = 1
                 return acc
-            check_tree(acc, b, levels, name, 'add0' if k % 2 else 'constructor')
+            check_tree(acc, b, levels, name, ('constructor', 'add0', 'early')[(k // n) % 3])
             acc.add('trees')
             if k % 1777 == i:
                 acc.sample({'layer': name, 'tree': describe(levels)})
